@@ -10,6 +10,7 @@ import (
 	"flag"
 	"fmt"
 	"os"
+	"path/filepath"
 	"runtime"
 	"runtime/debug"
 	"runtime/pprof"
@@ -127,7 +128,10 @@ func TestSim(t *testing.T) {
 		writeJSON(*fDump, &ReplayFile{Seed: *fSeed, Profile: *fProfile, Variant: *fVariant, Plan: plan})
 		os.Exit(0)
 	}
-	logDir, _ := os.MkdirTemp("", "simlog")
+	// not os.MkdirTemp: its random suffix comes from runtime.rand(), which the overlay pins, so every process would pick
+	// the same name and a leftover directory of a crashed run would block all later ones
+	logDir := filepath.Join(os.TempDir(), fmt.Sprintf("simlog-%d-%d", os.Getpid(), time.Now().UnixNano()))
+	_ = os.MkdirAll(logDir, 0o700)
 	_ = logging.InitializeLogger(logging.WithPath(logDir), logging.WithExpireDay(1), logging.WithLogLevel(*fLogLvl))
 
 	if plan.Whitelist != nil {
